@@ -8,7 +8,7 @@ from typing import Dict, List, Set
 from ..cfg import ENTRY, EXIT, RAISE, calls_in
 from ..common import calls_named, dotted, kw, loc, norm, stmt_of
 from ..model import AnalysisError, own_nodes
-from .util import (anchor_func, assigned_name, build_cfg, callee_desc, facts, name_aliases, op_instance_call,
+from .util import (validating_numpy_call, anchor_func, assigned_name, build_cfg, callee_desc, facts, name_aliases, op_instance_call,
                    raising_calls, switch_assumptions)
 from .c08 import acquisition, _release_nodes
 
@@ -76,7 +76,7 @@ def effect_nodes(cfg, fi, derived: Set[str]) -> Dict[int, str]:
 def r13_1(run, label, sw):
     fi = anchor_func(run, OP)
     assume = switch_assumptions(fi, **sw)
-    cfg = build_cfg(run, fi, assume, extra_raise=lambda c: op_instance_call(run, fi, c))
+    cfg = build_cfg(run, fi, assume, extra_raise=lambda c: op_instance_call(run, fi, c) or validating_numpy_call(c))
     derived = input_derived_names(fi.node, {"input_vars", "tensor_vars"})
     eff = effect_nodes(cfg, fi, derived)
     if len(eff) < 3:
@@ -113,7 +113,7 @@ def r13_4(run):
     fi = anchor_func(run, OP)
     for label, sw in (("TRACK_GRAPH=T,MEM_GUARD=T", dict(track=True, memguard=True)),):
         assume = switch_assumptions(fi, **sw)
-        cfg = build_cfg(run, fi, assume, extra_raise=lambda c: op_instance_call(run, fi, c))
+        cfg = build_cfg(run, fi, assume, extra_raise=lambda c: op_instance_call(run, fi, c) or validating_numpy_call(c))
         _, coll, _ = acquisition(run, fi)
         rel = _release_nodes(cfg, fi.node, name_aliases(fi.node, coll))
         fwd = [n for n in cfg.g.nodes if n not in (ENTRY, EXIT, RAISE) and not isinstance(cfg.stmt[n], ast.ExceptHandler)
